@@ -50,6 +50,12 @@ func (e event) String() string {
 		return fmt.Sprintf("remove(n%d via n%d)", e.Node, e.Via)
 	case "entry":
 		return fmt.Sprintf("a catalogue entry (dataset created via n%d)", e.Via)
+	case "down":
+		return fmt.Sprintf("n%d goes down", e.Node)
+	case "up":
+		return fmt.Sprintf("n%d comes back", e.Node)
+	case "joinpending":
+		return fmt.Sprintf("join(n%d via n%d) while the zero group has no quorum", e.Node, e.Via)
 	case "deafen":
 		return fmt.Sprintf("n%d stops receiving appends and snapshots (lags behind)", e.Node)
 	case "heal":
@@ -62,6 +68,8 @@ type wld struct {
 	*sim.Servers
 	members map[uint64]string // acknowledged membership: id -> announced address
 	removed map[uint64]bool
+	pending map[uint64]string // joins whose membership change waits for a quorum
+	acked   map[uint64]bool   // ... and whether the handshake acknowledged them
 	counts  struct{ joins, removes, snapshots, restarts, entries int }
 }
 
@@ -182,6 +190,78 @@ func (w *wld) apply(e event) (string, string) {
 		if !done || err != nil {
 			return "catalogue-entry-fails-on-healthy-cluster", fmt.Sprintf("returned=%v err=%v", done, err)
 		}
+	case "down":
+		w.Crash(e.Node) // stays down until "up"
+	case "up":
+		if err := w.Boot(e.Node); err != nil {
+			return "restart-fails", fmt.Sprint(err)
+		}
+		for r := 0; r < 6 && w.ZeroLeader() == 0; r++ {
+			var live []uint64
+			for _, n := range w.Nodes {
+				if !n.Crashed && n.Srv != nil {
+					live = append(live, n.ID)
+				}
+			}
+			w.Tick(live[r%len(live)], 10)
+			w.Settle(1)
+		}
+		w.Settle(6)
+		// membership changes that were waiting for a quorum are through now - unless the raft library dropped them: etcd
+		// raft 3.3 replaces a membership change proposed while another one is still unapplied by an empty entry, and
+		// NodesManager.AddNode / RemoveNode acknowledge as soon as the proposal is handed over
+		lead := w.ZeroLeader()
+		var ids []uint64
+		for id := range w.pending {
+			ids = append(ids, id)
+		}
+		sort.Slice(ids, func(i, j int) bool { return ids[i] < ids[j] })
+		for _, id := range ids {
+			addr := w.pending[id]
+			delete(w.pending, id)
+			listed := false
+			if lead != 0 {
+				_, listed = w.Node(lead).Srv.VerifConn().Nodes()[id]
+			}
+			if listed {
+				w.members[id] = addr
+			} else if w.acked[id] {
+				return "acknowledged-join-dropped-while-another-membership-change-was-unapplied", fmt.Sprintf("node %d's join was acknowledged while the change adding another node was still waiting to be applied; the quorum is back, every message delivered, and the leader (node %d) still does not list it: its change was replaced by an empty entry", id, lead)
+			}
+		}
+	case "joinpending":
+		// a join while the zero group has no quorum (a member is down): the membership change cannot commit. Whatever the
+		// handshake answers, no member may list the node before its change is applied - it is not a member yet
+		if w.Node(e.Node) == nil {
+			w.Add(e.Node, []string{world.ServerAddr(e.Via)})
+		}
+		w.Node(e.Node).Join = []string{world.ServerAddr(e.Via)}
+		if err := w.Boot(e.Node); err != nil {
+			return "boot-fails", fmt.Sprint(err)
+		}
+		var jerr error
+		finished := false
+		w.Call(e.Node, "join", func() { jerr = w.Node(e.Node).Srv.JoinCluster(); finished = true })
+		w.Settle(4)
+		if !finished {
+			w.FireDeadlines(e.Node)
+			w.Settle(1)
+		}
+		if w.pending == nil {
+			w.pending, w.acked = map[uint64]string{}, map[uint64]bool{}
+		}
+		w.pending[e.Node] = world.ServerAddr(e.Node)
+		w.acked[e.Node] = finished && jerr == nil
+		for id := range w.members {
+			n := w.Node(id)
+			if n == nil || n.Crashed || n.Srv == nil {
+				continue
+			}
+			if _, listed := n.Srv.VerifConn().Nodes()[e.Node]; listed {
+				return "node-listed-before-its-membership-change-is-applied", fmt.Sprintf("the zero group has no quorum, the change that adds node %d cannot be applied, yet member %d lists it (view {%s}) - placement and routing draw from that list", e.Node, id, view(n.Srv.VerifConn().Nodes()))
+			}
+		}
+		return "", "" // the joiner itself is not judged until it is a member
 	case "deafen":
 		w.Deaf[e.Node] = true
 	case "heal":
@@ -259,6 +339,9 @@ func (w *wld) check() (string, string) {
 			}
 		}
 		for id := range got {
+			if _, waiting := w.pending[id]; waiting {
+				continue
+			}
 			if _, ok := w.members[id]; !ok {
 				return "removed-node-still-listed", fmt.Sprintf("node %d still lists node %d (view {%s}, membership {%s})", n.ID, id, view(got), view(w.members))
 			}
@@ -355,6 +438,11 @@ func directed() [][]event {
 		{{Kind: "join", Node: 2, Via: 1}, {Kind: "join", Node: X, Via: 1}, {Kind: "deafen", Node: X}, {Kind: "join", Node: 26, Via: 1}, {Kind: "snapshot", Node: 1}, {Kind: "snapshot", Node: 2}, {Kind: "heal"}, {Kind: "snapshot", Node: X}, {Kind: "restart", Node: X}},
 		// ... the same with an ordinary entry after the catch-up, so that the member's own compaction has something to cut
 		{{Kind: "join", Node: 2, Via: 1}, {Kind: "join", Node: X, Via: 1}, {Kind: "deafen", Node: X}, {Kind: "join", Node: 26, Via: 1}, {Kind: "snapshot", Node: 1}, {Kind: "snapshot", Node: 2}, {Kind: "heal"}, {Kind: "entry", Via: 1}, {Kind: "snapshot", Node: X}, {Kind: "restart", Node: X}, {Kind: "restart", Node: 1}},
+		// joins that cannot commit (a member of a two-member group is down): nobody lists the newcomers meanwhile; when the
+		// member is back the changes go through and everybody lists them
+		{{Kind: "join", Node: 2, Via: 1}, {Kind: "down", Node: 2}, {Kind: "joinpending", Node: X, Via: 1}, {Kind: "up", Node: 2}, {Kind: "restart", Node: 1}},
+		// ... two of them (known finding: the second is acknowledged and silently dropped by the raft library)
+		{{Kind: "join", Node: 2, Via: 1}, {Kind: "down", Node: 2}, {Kind: "joinpending", Node: X, Via: 1}, {Kind: "joinpending", Node: 26, Via: 1}, {Kind: "up", Node: 2}},
 		{{Kind: "join", Node: 2, Via: 1}, {Kind: "entry", Via: 2}, {Kind: "snapshot", Node: 2}, {Kind: "join", Node: X, Via: 2}, {Kind: "entry", Via: X}, {Kind: "snapshot", Node: X}, {Kind: "restart", Node: X}, {Kind: "restart", Node: 2}},
 		{{Kind: "join", Node: 2, Via: 1}, {Kind: "join", Node: X, Via: 2}, {Kind: "deafen", Node: 2}, {Kind: "join", Node: 26, Via: 1}, {Kind: "snapshot", Node: 1}, {Kind: "heal"}, {Kind: "snapshot", Node: 2}, {Kind: "restart", Node: 2}, {Kind: "restart", Node: 1}},
 	}
@@ -393,7 +481,7 @@ func main() {
 		w, k, d := build(f.Replay.Path)
 		fmt.Println(w.canon())
 		w.Close()
-		if k != "" {
+		if k != "" && ev.Counts(k) {
 			fmt.Printf("VIOLATION property=%s replay=%s\n  %s: %s\n", ev.As("C20"), os.Args[2], k, d)
 			os.Exit(1)
 		}
@@ -428,6 +516,10 @@ func main() {
 					Path      []event
 				}{k + ":directed", d, h})
 			}
+		}
+		if os.Getenv("VERIF_AS") != "" && os.Getenv("VERIF_PART_MODE") == "directed" {
+			shard.Emit(res) // borrowed phase "directed": only the directed histories
+			return
 		}
 		res.St = seq.BFS(seq.Config[*wld, event]{
 			Depth: depth, Workers: 1, Deadline: time.Now().Add(budget),
@@ -481,7 +573,7 @@ func main() {
 		"servers are built by the real Server.setup(); joins go through the real NodesManager.Join / AddNode handshake, removals through RemoveNode; the zero-group snapshot offset is lowered to 0",
 		"one event at a time, the cluster settles in between; a lost handshake reply makes the joining process exit (as cmd/anndb does) and be started again",
 		"a removed node's process is stopped; only members' views are compared",
-		"directed histories (7, both tiers) add a lagging member (appends and snapshots to it are lost until it is healed; its view is not judged while it lags) and a snapshot message whose RPC fails once",
+		"directed histories (9, both tiers) add a lagging member (appends and snapshots to it are lost until it is healed; its view is not judged while it lags) and a snapshot message whose RPC fails once",
 	}
 	run.Finish(ev.Coverage{
 		"states":                        total.States,
